@@ -842,6 +842,31 @@ static void op_enumdesc(void)
 	for (j = 0; j < d->n_value_ranges + (d->n_values ? 1 : 0); j++) printf("%s%d:%u", j ? "," : "", d->value_ranges[j].start_value, d->value_ranges[j].orig_index);
 	printf("\n");
 }
+/* glookup field <ty> <name> | enum <ei> num <v> | enum <ei> name <s> | method <si> <name>: the public lookup functions on
+   the generated descriptors ("-" stands for the empty string) */
+static void op_glookup(void)
+{
+	const char *k = tok();
+	int i = (int) tok_ll();
+	if (!strcmp(k, "field")) {
+		const char *nm = tok();
+		const ProtobufCMessageDescriptor *d = pbcv_gen_msgs[i];
+		const ProtobufCFieldDescriptor *f = protobuf_c_message_descriptor_get_field_by_name(d, nm[0] == '-' ? "" : nm);
+		if (f) printf("idx=%d name=%s\n", (int) (f - d->fields), f->name ? f->name : "(null)"); else printf("idx=-1\n");
+	} else if (!strcmp(k, "enum")) {
+		const char *how = tok();
+		const ProtobufCEnumDescriptor *d = pbcv_gen_enums[i];
+		const ProtobufCEnumValue *v;
+		if (!strcmp(how, "num")) v = protobuf_c_enum_descriptor_get_value(d, (int) tok_ll());
+		else { const char *nm = tok(); v = protobuf_c_enum_descriptor_get_value_by_name(d, nm[0] == '-' ? "" : nm); }
+		if (v) printf("idx=%d value=%d name=%s\n", (int) (v - d->values), v->value, v->name ? v->name : "(null)"); else printf("idx=-1\n");
+	} else {
+		const char *nm = tok();
+		const ProtobufCServiceDescriptor *d = pbcv_gen_svcs[i];
+		const ProtobufCMethodDescriptor *m = protobuf_c_service_descriptor_get_method_by_name(d, nm[0] == '-' ? "" : nm);
+		if (m) printf("idx=%d\n", (int) (m - d->methods)); else printf("idx=-1\n");
+	}
+}
 /* genapi <ty> ...: which helper functions the generated header declares for message ty (table written by
    tools/genpipe.py from the header text; every declared function is also referenced there, so a declaration
    without definition does not link) */
@@ -899,6 +924,7 @@ static void run_op(const char *op)
 	else if (!strcmp(op, "gensvc")) op_svc((int) tok_ll());
 	else if (!strcmp(op, "genenum")) op_enumdesc();
 	else if (!strcmp(op, "genapi")) op_genapi();
+	else if (!strcmp(op, "glookup")) op_glookup();
 #endif
 	else printf("bad-op\n");
 	sfree_all();
